@@ -1,29 +1,19 @@
 ---- MODULE MatKernels ----
 (* C13 / C14: the 12-wide kernels as compositions of the lane kernels (arithmetic chain per lane) and of register
    permutations (layout).
-   (a) chain: spmv = three lane products through two lane adders; the 8-bit variant adds the low halves of the 72-bit
+   (a) chain (module MatChains, generated from the source): spmv = three lane products through two lane adders; the 8-bit variant adds the low halves of the 72-bit
        products with the modular adder and the high parts as integers, then reduces once; mmult sums four transposed
        columns through two levels of adders.  LegacyBC = TRUE is the pinned AVX512 code, which chains add_avx512_b_c
        (exact only for a canonical second operand) on products that need not be canonical (D9).
    (b) layout: registers as tuples of symbolic terms; permute2f128 / unpack (AVX2) and permutex2var / unpack (AVX512)
        are index permutations; the 4x4 transposes must turn row registers into column registers. *)
-EXTENDS LaneKernels, Sequences
+EXTENDS MatChains, Sequences
 CONSTANT LegacyBC
-Spmv2(a0, a1, a2, b0, b1, b2) == Add(Add(Mult(a0, b0), Mult(a1, b1)), Mult(a2, b2))
-AddX(x, y) == IF LegacyBC THEN AddBC512(x, y) ELSE Add512(x, y)
-Spmv512(a0, a1, a2, b0, b1, b2) == AddX(AddX(Mult512(a0, b0), Mult512(a1, b1)), Mult512(a2, b2))
-Spmv8(a0, a1, a2, b0, b1, b2) ==
-  LET m0 == Mult72(a0, b0) m1 == Mult72(a1, b1) m2 == Mult72(a2, b2)
-      cl == Add(Add(m0.l, m1.l), m2.l)
-      ch == (((m0.h + m1.h) % T) + m2.h) % T
-  IN Reduce96(ch, cl)
-Spmv8_512(a0, a1, a2, b0, b1, b2) ==
-  LET m0 == Mult72_512(a0, b0) m1 == Mult72_512(a1, b1) m2 == Mult72_512(a2, b2)
-      cl == Add512(Add512(m0.l, m1.l), m2.l)
-      ch == (((m0.h + m1.h) % T) + m2.h) % T
-  IN Reduce96_512(ch, cl)
-ColSum(c0, c1, c2, c3) == Add(Add(c0, c1), Add(c2, c3))
-ColSum512(c0, c1, c2, c3) == AddX(AddX(c0, c1), AddX(c2, c3))
+(* The chain operators Spmv2 / Spmv2A / Spmv8 / Spmv512 / Spmv8_512 / ColSum* come from MatChains, which is GENERATED from the
+   12-wide kernels of the current tree.  The pinned tree's AVX512 chain (D9) is kept here as a named deviation so that the
+   model-level counterexample stays reproducible: *)
+Spmv512Legacy(a0, a1, a2, b0, b1, b2) == AddBC512(AddBC512(Mult512(a0, b0), Mult512(a1, b1)), Mult512(a2, b2))
+ColSum512Legacy(c0, c1, c2, c3) == AddBC512(AddBC512(c0, c1), AddBC512(c2, c3))
 (* ---- layout: AVX2 4x4 transpose ---- *)
 Perm2f128(a, b, lo, hi) == LET src(sel) == IF sel = 0 THEN <<a[1], a[2]>> ELSE IF sel = 1 THEN <<a[3], a[4]>> ELSE IF sel = 2 THEN <<b[1], b[2]>> ELSE <<b[3], b[4]>>
                            IN src(lo) \o src(hi)
